@@ -3,7 +3,7 @@ from vlib.gentie import gentie_step
 
 CHECK = Check(
     "C10",
-    props_modules=["OW.Props.C10"],
+    props_modules=["OW.Props.C10", "OW.Props.C10Sacramento"],
     families=[
         # arithmetic only (one multiplication): bit-exact
         Family("K", rtol=None, args=["models=RunoffCoefficient", "prop=C10", "n=150"], label="K-exact"),
